@@ -215,6 +215,11 @@ func (fr *Frame) intrinsic(fn *ssa.Function, args []Value, pc *Term, in ssa.Inst
 		name = fn.Origin().Name()
 	}
 	if pkg == nil {
+		if ex.Native != nil {
+			if r, ok := ex.nativeCall(fr, fn, args, pc, in); ok {
+				return r, true
+			}
+		}
 		return nil, false
 	}
 	if isVxPkg(pkg) {
